@@ -469,7 +469,8 @@ Qed.
 Lemma nme_gather_Pr : forall e ks, nme (gather_Pr e ks).
 Proof.
   intros. unfold gather_Pr. destruct (find_child _ _ ks); [|apply nme_ok].
-  apply nme_foldM. intros d k. apply nme_bind; [apply nme_sub_val_of|].
+  apply nme_foldM. intros d k. destruct k as [ke kks|tl]; [|apply nme_ok].
+  apply nme_bind; [apply nme_sub_val_of|].
   intros [n x] _. apply nme_ok.
 Qed.
 
@@ -507,17 +508,40 @@ Proof.
     + intros. apply nme_format_Pr.
 Qed.
 
+(* the relationship id of an element and the target it resolves to: elem_key
+   uses the target when there is one, and the formatting otherwise *)
+Definition rid_of (e : einfo) : option str :=
+  match e_ruri e with
+  | None => None
+  | Some u => alookup (Some u, s_id) (e_attrs e)
+  end.
+Definition tgt_of (v : env) (e : einfo) : option str :=
+  match rid_of e with
+  | Some (c :: r) => dict_get (c :: r) (env_rels v)
+  | _ => None
+  end.
+
+Lemma elem_key_eq : forall v e ks,
+  elem_key v e ks =
+  if negb (is_mergeable e) then Ok ((e_uri e, e_local e), [], [])
+  else match tgt_of v e with
+       | Some tgt => Ok ((e_uri e, e_local e), tgt, [])
+       | None => f <- get_html_formatting e ks (env_x2h v) ;; Ok ((e_uri e, e_local e), [], f)
+       end.
+Proof.
+  intros v e ks. unfold elem_key, tgt_of, rid_of. cbv zeta.
+  destruct (negb (is_mergeable e)); [reflexivity|].
+  destruct (match e_ruri e with
+            | Some u => alookup (Some u, s_id) (e_attrs e)
+            | None => None
+            end) as [[|c r]|]; reflexivity.
+Qed.
+
 Lemma nme_elem_key : forall v e ks, nme (elem_key v e ks).
 Proof.
-  intros. unfold elem_key. destruct (negb (is_mergeable e)); [apply nme_ok|].
-  apply nme_bind; [apply nme_attr_r|]. intros rid _.
-  destruct rid as [[|c r]|].
-  - apply nme_bind; [apply nme_get_html_formatting|]. intros. apply nme_ok.
-  - apply nme_bind.
-    + destruct (dict_get (c :: r) (env_rels v)); cbn [of_opt];
-        [apply nme_ok|apply nme_err; discriminate].
-    + intros. apply nme_ok.
-  - apply nme_bind; [apply nme_get_html_formatting|]. intros. apply nme_ok.
+  intros. rewrite elem_key_eq. destruct (negb (is_mergeable e)); [apply nme_ok|].
+  destruct (tgt_of v e); [apply nme_ok|].
+  apply nme_bind; [apply nme_get_html_formatting|]. intros. apply nme_ok.
 Qed.
 
 Lemma nme_step : forall v k g out, nme (step v k g out).
@@ -631,16 +655,11 @@ Definition oginv (g : option group) : Prop :=
 Lemma elem_key_name : forall v e ks key,
   elem_key v e ks = Ok key -> fst (fst key) = (e_uri e, e_local e).
 Proof.
-  intros v e ks key H. unfold elem_key in H.
+  intros v e ks key H. rewrite elem_key_eq in H.
   destruct (negb (is_mergeable e)); [injection H as <-; reflexivity|].
-  destruct (attr_r e s_id) as [rid|x]; cbn [bind] in H; [|discriminate].
-  destruct rid as [[|c r]|].
-  - destruct (get_html_formatting e ks (env_x2h v)); cbn [bind] in H; [|discriminate].
-    injection H as <-. reflexivity.
-  - destruct (of_opt KeyError (dict_get (c :: r) (env_rels v))); cbn [bind] in H; [|discriminate].
-    injection H as <-. reflexivity.
-  - destruct (get_html_formatting e ks (env_x2h v)); cbn [bind] in H; [|discriminate].
-    injection H as <-. reflexivity.
+  destruct (tgt_of v e); [injection H as <-; reflexivity|].
+  destruct (get_html_formatting e ks (env_x2h v)); cbn [bind] in H; [|discriminate].
+  injection H as <-. reflexivity.
 Qed.
 
 Lemma ginv_fresh : forall v key e eks,
@@ -1090,10 +1109,8 @@ Qed.
 Lemma elem_key_dep : forall v e ks1 ks2,
   pr_child e ks1 = pr_child e ks2 -> elem_key v e ks1 = elem_key v e ks2.
 Proof.
-  intros v e ks1 ks2 H. unfold elem_key.
-  destruct (negb (is_mergeable e)); [reflexivity|].
-  destruct (attr_r e s_id) as [rid|]; [|reflexivity]. cbn [bind].
-  destruct rid as [[|c r]|]; try reflexivity; rewrite (ghf_dep e ks1 ks2 _ H); reflexivity.
+  intros v e ks1 ks2 H. rewrite !elem_key_eq.
+  rewrite (ghf_dep e ks1 ks2 _ H). reflexivity.
 Qed.
 
 Lemma find_child_app : forall u l a b,
@@ -1106,39 +1123,39 @@ Qed.
 
 Lemma elem_key_cases : forall v e ks K,
   is_mergeable e = true -> elem_key v e ks = Ok K ->
-  (exists c r tgt, attr_r e s_id = Ok (Some (c :: r)) /\
-      dict_get (c :: r) (env_rels v) = Some tgt /\ K = ((e_uri e, e_local e), tgt, []))
-  \/ (exists rid f, attr_r e s_id = Ok rid /\ (forall c r, rid <> Some (c :: r)) /\
+  (exists tgt, tgt_of v e = Some tgt /\ K = ((e_uri e, e_local e), tgt, []))
+  \/ (exists f, tgt_of v e = None /\
       get_html_formatting e ks (env_x2h v) = Ok f /\ K = ((e_uri e, e_local e), [], f)).
 Proof.
-  intros v e ks K Hm H. unfold elem_key in H. rewrite Hm in H. cbn [negb] in H.
-  destruct (attr_r e s_id) as [rid|] eqn:Ea; cbn [bind] in H; [|discriminate].
-  destruct rid as [[|c r]|].
+  intros v e ks K Hm H. rewrite elem_key_eq in H. rewrite Hm in H. cbn [negb] in H.
+  destruct (tgt_of v e) as [tgt|] eqn:Et.
+  - left. injection H as <-. exists tgt. auto.
   - right. destruct (get_html_formatting e ks (env_x2h v)) as [f|] eqn:Ef; cbn [bind] in H; [|discriminate].
-    injection H as <-. exists (Some []), f. repeat split; auto. intros; discriminate.
-  - left. destruct (dict_get (c :: r) (env_rels v)) as [tgt|] eqn:Ed; cbn [of_opt bind] in H; [|discriminate].
-    injection H as <-. exists c, r, tgt. auto.
-  - right. destruct (get_html_formatting e ks (env_x2h v)) as [f|] eqn:Ef; cbn [bind] in H; [|discriminate].
-    injection H as <-. exists None, f. repeat split; auto. intros; discriminate.
+    injection H as <-. exists f. auto.
 Qed.
 
-Lemma elem_key_rid : forall v e ks c r tgt,
-  is_mergeable e = true -> attr_r e s_id = Ok (Some (c :: r)) ->
-  dict_get (c :: r) (env_rels v) = Some tgt ->
+Lemma elem_key_rid : forall v e ks tgt,
+  is_mergeable e = true -> tgt_of v e = Some tgt ->
   elem_key v e ks = Ok ((e_uri e, e_local e), tgt, []).
 Proof.
-  intros v e ks c r tgt Hm Ha Hd. unfold elem_key. rewrite Hm. cbn [negb].
-  rewrite Ha. cbn [bind]. rewrite Hd. reflexivity.
+  intros v e ks tgt Hm Ht. rewrite elem_key_eq. rewrite Hm. cbn [negb].
+  rewrite Ht. reflexivity.
 Qed.
 
-Lemma elem_key_fmt : forall v e ks rid f,
-  is_mergeable e = true -> attr_r e s_id = Ok rid -> (forall c r, rid <> Some (c :: r)) ->
+Lemma elem_key_fmt : forall v e ks f,
+  is_mergeable e = true -> tgt_of v e = None ->
   get_html_formatting e ks (env_x2h v) = Ok f ->
   elem_key v e ks = Ok ((e_uri e, e_local e), [], f).
 Proof.
-  intros v e ks rid f Hm Ha Hr Hf. unfold elem_key. rewrite Hm. cbn [negb].
-  rewrite Ha. cbn [bind].
-  destruct rid as [[|c r]|]; [|exfalso; eapply Hr; reflexivity|]; rewrite Hf; reflexivity.
+  intros v e ks f Hm Ht Hf. rewrite elem_key_eq. rewrite Hm. cbn [negb].
+  rewrite Ht, Hf. reflexivity.
+Qed.
+
+Lemma tgt_of_In : forall v e tgt, tgt_of v e = Some tgt ->
+  exists k, dict_get k (env_rels v) = Some tgt.
+Proof.
+  intros v e tgt H. unfold tgt_of in H.
+  destruct (rid_of e) as [[|c r]|]; try discriminate. exists (c :: r). exact H.
 Qed.
 
 (* the key of a fused leader is the key of the group *)
@@ -1151,9 +1168,9 @@ Proof.
   assert (Hm : is_mergeable e = true).
   { destruct Hst as (Hp & _). unfold is_mergeable. rewrite Hp. exact Hm0. }
   destruct (elem_key_cases v e0 kids K Hm0 H0)
-    as [(c & r & tgt & Ha & Hd & HK) | (rid & f & Ha & Hr & Hf & HK)]; subst K.
-  - apply (elem_key_rid v e0 _ c r tgt); assumption.
-  - apply (elem_key_fmt v e0 _ rid f); try assumption.
+    as [(tgt & Ha & HK) | (f & Ha & Hf & HK)]; subst K.
+  - apply (elem_key_rid v e0 _ tgt); assumption.
+  - apply (elem_key_fmt v e0 _ f); try assumption.
     destruct (pr_child e0 kids) as [x|] eqn:Epr.
     + rewrite <- Hf. apply ghf_dep. unfold pr_child in *. rewrite find_child_app, Epr. reflexivity.
     + assert (E : get_html_formatting e0 (kids ++ eks) (env_x2h v)
@@ -1161,9 +1178,10 @@ Proof.
       { apply ghf_dep. unfold pr_child in *. rewrite find_child_app, Epr. reflexivity. }
       rewrite E. rewrite <- (ghf_same_tag e e0 eks _ Hst).
       destruct (elem_key_cases v e eks _ Hm H1)
-        as [(c & r & tgt & Ha' & Hd' & HK') | (rid' & f' & Ha' & Hr' & Hf' & HK')].
+        as [(tgt & Ha' & HK') | (f' & Ha' & Hf' & HK')].
       * assert (Ht : tgt = []) by (inversion HK'; reflexivity).
-        subst tgt. exfalso. eapply Hrels; eauto.
+        subst tgt. exfalso. destruct (tgt_of_In v e [] Ha') as [k Hk].
+        eapply Hrels; eauto.
       * assert (Hff : f' = f) by (inversion HK'; reflexivity).
         rewrite Hf', Hff. reflexivity.
 Qed.
